@@ -154,9 +154,17 @@ def _has_subclasses(ex, cls):
     return any(cls in getattr(x, "bases", ()) for x in ex.reg.classes.values())
 
 
-def elem(ex, ctx, st, lst, raw):
+def elem(ex, ctx, st, lst, raw, idx=None):
     """Typed view of a list element `raw` of list reference `lst` (assumes the element type fact)."""
     if getattr(lst, "ety", None) is None:
         return mk_any(raw)
-    ctx.assume(fact(ex, st, raw, lst.ety), "field-type:list-element")
+    f = fact(ex, st, raw, lst.ety)
+    if idx is not None:
+        f = z3.Implies(z3.And(idx >= 0, idx < z3.Select(ex.heap_get(st, "$len"), lst.t)), f)
+    if lst.eguard is not None:
+        # valid for every index of this list whenever the owning object has its declared class
+        ctx.assume(z3.Implies(lst.eguard, f), "field-type:list-element", glob=True)
+    else:
+        # typed by construction (summary formal): self-guarded by the index range when the index is known
+        ctx.assume(f, "field-type:list-element", glob=(idx is not None))
     return view(ex, raw, lst.ety)
